@@ -694,5 +694,25 @@ PROPS["C16"]["rules"] = PROPS["C16"]["rules"] + [rules_errors.rule_bit_io_count_
 PROPS["C16"]["explanation"] += " (BITCOUNT) every Hbitread/Hbitwrite in the coders is compared with the bit count it asked for."
 PROPS["C05"]["rules"] = PROPS["C05"]["rules"] + [rules_errors.rule_bit_io_count_checked]
 
+PROPS["C09"]["rules"] = PROPS["C09"]["rules"] + [rules_conv.rule_nt_class_from_type, rules_gr.rule_interlace_gate_matches, rules_idioms.rule_tag_ref_of_one_pair]
+PROPS["C09"]["explanation"] += " (NTCLASS+) the little-endian class byte is recorded under a test of the type's DFNT_LITEND flag. (ILGATE) an interlace conversion is gated by a test of the interlace it converts to/from. (TAGREFPAIR) a tag and a reference handed to one call are the two halves of one pair of the record."
+PROPS["C06"]["rules"] = PROPS["C06"]["rules"] + [rules_conv.rule_nt_class_from_type]
+PROPS["C04"]["rules"] = PROPS["C04"]["rules"] + [rules_gr.rule_interlace_gate_matches]
+PROPS["C13"]["rules"] = PROPS["C13"]["rules"] + [rules_handles.rule_table_shrink_keeps_highwater, rules_handles.rule_record_not_released_twice]
+PROPS["C13"]["explanation"] += " (HIGHWATER) the SD file table is not replaced by one smaller than the high-water mark of used positions. (DOUBLEREL) Hendaccess never releases an access record it has handed to the element's own end-access routine."
+PROPS["C15"]["rules"] = PROPS["C15"]["rules"] + [rules_idioms.rule_tag_ref_of_one_pair, rules_loops.rule_member_refs_reset_per_group]
+PROPS["C15"]["explanation"] += " (TAGREFPAIR) as for C09: the RIG written for the single-file raster interface names the palette by its own tag/ref pair. (ITEMREF) hdf_read_ndgs gives every local that receives a group member's reference its start value per group."
+PROPS["C20"]["rules"] = PROPS["C20"]["rules"] + [rules_limits.rule_new_flag_cleared_last, rules_limits.rule_replace_frees_after_success]
+PROPS["C20"]["explanation"] += " (COMMITLAST) Hsetlength clears new_elem only after every call that can refuse the request. (REPLACESAFE) a rename frees the old name only on paths that can no longer fail."
+PROPS["C18"]["rules"] = PROPS["C18"]["rules"] + [rules_repack.rule_presence_decided_by_info]
+PROPS["C18"]["explanation"] += " (PRESENCE) whether hrepack copies a palette or a dimension scale is decided by what the info call reports about that part only."
+PROPS["C17"]["rules"] = PROPS["C17"]["rules"] + [rules_dd.rule_cache_switch_polarity]
+PROPS["C17"]["explanation"] += " (CACHEPOL) both stores of Hcache map a non-zero argument to caching ON."
+PROPS["C16"]["rules"] = PROPS["C16"]["rules"] + [rules_errors.rule_failure_test_alive]
+PROPS["C16"]["explanation"] += " (DEADFAIL) no call result is narrowed below the failure constant it is compared with."
+
+PROPS["C20"]["rules"] = PROPS["C20"]["rules"] + [rules_limits.rule_byte_count_product_bounded]
+PROPS["C20"]["explanation"] += " (PRODBOUND) VSread/VSwrite compare the record count with a bound before it is multiplied into the 32-bit byte count."
+
 NOT_APPLICABLE = {}
 
